@@ -169,10 +169,6 @@ theorem starUL_false (es : List AnnExpr) :
     AnnExpr.starUL es = false ↔ ∀ e ∈ es, e.starU = false := by
   induction es <;> simp_all [AnnExpr.starUL]
 
-theorem finalUL_false (es : List AnnExpr) :
-    AnnExpr.finalUL es = false ↔ ∀ e ∈ es, e.finalU = false := by
-  induction es <;> simp_all [AnnExpr.finalUL]
-
 theorem hasOptL_false (es : List AnnExpr) :
     AnnExpr.hasOptL es = false ↔ ∀ e ∈ es, e.hasOpt = false := by
   induction es <;> simp_all [AnnExpr.hasOptL]
@@ -300,66 +296,65 @@ theorem normOK {args : List AnnExpr} (h : normMatters args = false) (au : Bool) 
 runtime route computes on the object `typing` builds for `e` with every `Optional[X]` read as
 `Union[None, X]`. -/
 theorem agree_main (e : AnnExpr) :
-    supp true e = true → e.starU = false → e.finalU = false →
+    supp true e = true → e.starU = false →
     R13_typingDedup (swapOpt e) = false → Agree e := by
   induction e using annInd with
   | cls c | none | anyT | newtype n c | bare c | tupE o =>
-    intro _ _ _ _ au; simp [astEval, rtEval, swapOpt, tnorm]
+    intro _ _ _ au; simp [astEval, rtEval, swapOpt, tnorm]
   | gen o c args ih =>
-    intro hs hst hf hr au
+    intro hs hst hr au
     simp only [supp, Bool.and_eq_true] at hs
     simp only [AnnExpr.starU] at hst
-    simp only [AnnExpr.finalU] at hf
     simp only [swapOpt, R13_typingDedup] at hr
     have := agreeL args fun e he => ih e he (supp_mono e ((suppL_iff _).1 hs.2 e he))
-      ((starUL_false _).1 hst e he) ((finalUL_false _).1 hf e he) (R13L_swap _ hr e he)
+      ((starUL_false _).1 hst e he) (R13L_swap _ hr e he)
     simp only [astEval, swapOpt, tnorm, rtEval, this]
   | tup o ms ih =>
-    intro hs hst hf hr au
+    intro hs hst hr au
     simp only [supp, Bool.and_eq_true] at hs
     simp only [AnnExpr.starU] at hst
-    simp only [AnnExpr.finalU] at hf
     simp only [swapOpt, R13_typingDedup] at hr
     have := agreeM ms fun e he => ih e he ((suppM_iff _).1 hs.1.2 e he)
-      ((starUL_false _).1 hst e he) ((finalUL_false _).1 hf e he) (R13L_swap _ hr e he)
+      ((starUL_false _).1 hst e he) (R13L_swap _ hr e he)
     simp only [astEval, swapOpt, tnorm, rtEval, this]
   | tupV o e ih =>
-    intro hs hst hf hr au
+    intro hs hst hr au
     simp only [supp] at hs
     simp only [AnnExpr.starU] at hst
-    simp only [AnnExpr.finalU] at hf
     simp only [swapOpt, R13_typingDedup] at hr
-    simp only [astEval, swapOpt, tnorm, rtEval, ih (supp_mono e hs) hst hf hr false]
+    simp only [astEval, swapOpt, tnorm, rtEval, ih (supp_mono e hs) hst hr false]
   | typ o e ih =>
-    intro hs hst hf hr au
+    intro hs hst hr au
     simp only [supp, Bool.and_eq_true] at hs
     simp only [AnnExpr.starU] at hst
-    simp only [AnnExpr.finalU] at hf
     simp only [swapOpt, R13_typingDedup] at hr
-    simp only [astEval, swapOpt, tnorm, rtEval, ih (supp_mono e hs.2) hst hf hr false]
+    simp only [astEval, swapOpt, tnorm, rtEval, ih (supp_mono e hs.2) hst hr false]
   | unpack e ih =>
-    intro hs hst hf hr au
+    intro hs hst hr au
     simp only [supp, Bool.and_eq_true] at hs
     simp only [AnnExpr.starU] at hst
-    simp only [AnnExpr.finalU] at hf
     simp only [swapOpt, R13_typingDedup] at hr
-    simp only [astEval, swapOpt, tnorm, rtEval, ih (supp_mono e hs.2) hst hf hr false, hst]
+    simp only [astEval, swapOpt, tnorm, rtEval, ih (supp_mono e hs.2) hst hr false, hst]
     simp
   | star e ih => intro _ hst; simp [AnnExpr.starU] at hst
-  | final e ih | classVar e ih => intro _ _ hf; simp [AnnExpr.finalU] at hf
+  | final e ih | classVar e ih =>
+    intro hs hst hr au
+    simp only [supp] at hs
+    simp only [AnnExpr.starU] at hst
+    simp only [swapOpt, R13_typingDedup] at hr
+    simp only [astEval, swapOpt, tnorm, rtEval, ih (supp_mono e hs) hst hr false]
   | lit os =>
-    intro _ _ _ hr au
+    intro _ _ hr au
     simp only [swapOpt, R13_typingDedup, litMatters, Bool.not_eq_false'] at hr
     have h := optResSame_eq hr
     simp only [swapOpt, tnorm, astEval, rtEval] at h ⊢
     exact h.symm
   | ann e k ih =>
-    intro hs hst hf hr au
+    intro hs hst hr au
     simp only [supp, Bool.and_eq_true] at hs
     simp only [AnnExpr.starU] at hst
-    simp only [AnnExpr.finalU] at hf
     simp only [swapOpt, R13_typingDedup] at hr
-    have ihe := ih (supp_mono e hs.2) hst hf hr
+    have ihe := ih (supp_mono e hs.2) hst hr
     have hau := astEval_au' e hs.2 au
     simp only [astEval, swapOpt, tnorm]
     split
@@ -373,42 +368,39 @@ theorem agree_main (e : AnnExpr) :
       simp only [rtEval]
       rw [hau, ihe au]
   | opt e ih =>
-    intro hs hst hf hr au
+    intro hs hst hr au
     simp only [supp] at hs
     simp only [AnnExpr.starU] at hst
-    simp only [AnnExpr.finalU] at hf
     simp only [swapOpt, R13_typingDedup, R13_typingDedupL, Bool.or_eq_false_iff] at hr
-    have ihe := ih (supp_mono e hs) hst hf hr.1.2.1 false
+    have ihe := ih (supp_mono e hs) hst hr.1.2.1 false
     simp only [swapOpt, tnorm]
     rw [normOK hr.2 au]
     have hn : tnorm AnnExpr.none = AnnExpr.none := by simp [tnorm]
     simp only [rtUnionOf, tnormL, rtEvalL, hn, astEval, ihe]
     cases rtEval false (tnorm (swapOpt e)) <;> simp [rtEval, ok]
   | union es ih =>
-    intro hs hst hf hr au
+    intro hs hst hr au
     simp only [supp, Bool.and_eq_true] at hs
     simp only [AnnExpr.starU] at hst
-    simp only [AnnExpr.finalU] at hf
     simp only [swapOpt, R13_typingDedup, Bool.or_eq_false_iff] at hr
     have := agreeL es fun e he => ih e he (supp_mono e ((suppL_iff _).1 hs.2 e he))
-      ((starUL_false _).1 hst e he) ((finalUL_false _).1 hf e he) (R13L_swap _ hr.1 e he)
+      ((starUL_false _).1 hst e he) (R13L_swap _ hr.1 e he)
     simp only [swapOpt, tnorm]
     rw [normOK hr.2 au]
     simp only [rtUnionOf, astEval, this]
   | bor a b iha ihb =>
-    intro hs hst hf hr au
+    intro hs hst hr au
     simp only [supp, Bool.and_eq_true] at hs
     simp only [AnnExpr.starU, Bool.or_eq_false_iff] at hst
-    simp only [AnnExpr.finalU, Bool.or_eq_false_iff] at hf
     simp only [swapOpt, R13_typingDedup, Bool.or_eq_false_iff] at hr
-    have ha := iha (supp_mono a hs.1) hst.1 hf.1 hr.1.1 false
-    have hb := ihb (supp_mono b hs.2) hst.2 hf.2 hr.1.2 false
+    have ha := iha (supp_mono a hs.1) hst.1 hr.1.1 false
+    have hb := ihb (supp_mono b hs.2) hst.2 hr.1.2 false
     simp only [swapOpt, tnorm]
     rw [normOK hr.2 au]
     simp only [rtUnionOf, rtEvalL, astEval, ha, hb]
     cases rtEval false (tnorm (swapOpt a)) <;> cases rtEval false (tnorm (swapOpt b)) <;> simp
   | str e ih =>
-    intro _ _ _ _ au
+    intro _ _ _ au
     simp [astEval, rtEval, swapOpt, tnorm]
 
 /-! ### 5. def headers -/
@@ -559,23 +551,29 @@ theorem zip_nf (d : DefArgs) (hwf : d.WF = true) :
   rw [zip_pos _ _ _ h1, zip_kw _ _ h2, zipLongest_nil_right]
   cases d.vararg <;> cases d.kwarg <;> simp [zipLongest, flatZ, nfZ]
 
-/-- `defLoop` on the normal form -/
-def defLoopNF (eval : Bool → AnnExpr → Option Res) (m : Option Cls) :
-    Nat → List (Kind × PArg × Option Dflt) → Option (List SigParam)
-  | _, [] => some []
-  | i, (k, a, df) :: rest =>
-    match defParam eval m i k a (df.map visitDefault), defLoopNF eval m (i + 1) rest with
-    | some p, some ps => some (p :: ps)
-    | _, _ => none
+/-- the common shape of the two parameter loops on the normal form: compute the parameter, and when it
+is a positional-or-keyword `__x`, make it and everything accumulated so far positional-only -/
+def accLoop (f : Nat → Kind × PArg × Option Dflt → Option SigParam) :
+    Nat → List SigParam → List (Kind × PArg × Option Dflt) → Option (List SigParam)
+  | _, acc, [] => some acc
+  | i, acc, x :: rest =>
+    match f i x with
+    | none => none
+    | some p =>
+      if x.1 == Kind.posOrKw && isDunderName x.2.1.name then
+        accLoop f (i + 1) (acc.map (fun q => { q with kind := Kind.posOnly }) ++ [{ p with kind := Kind.posOnly }]) rest
+      else accLoop f (i + 1) (acc ++ [p]) rest
 
 theorem defLoop_nf (eval : Bool → AnnExpr → Option Res) (m : Option Cls)
     (N : List (Kind × PArg × Option Dflt)) :
-    ∀ (i : Nat) (L : List (Option (Kind × PArg) × Option (Option DVal))),
-      L.map flatZ = N.map nfZ → defLoop eval m i L = defLoopNF eval m i N := by
+    ∀ (i : Nat) (acc : List SigParam) (L : List (Option (Kind × PArg) × Option (Option DVal))),
+      L.map flatZ = N.map nfZ →
+      defLoop eval m i acc L =
+        accLoop (fun i x => defParam eval m i x.1 x.2.1 (x.2.2.map visitDefault)) i acc N := by
   induction N with
-  | nil => intro i L h; cases L <;> simp_all [defLoop, defLoopNF]
+  | nil => intro i acc L h; cases L <;> simp_all [defLoop, accLoop]
   | cons x N ih =>
-    intro i L h
+    intro i acc L h
     cases L with
     | nil => simp at h
     | cons y L =>
@@ -585,32 +583,30 @@ theorem defLoop_nf (eval : Bool → AnnExpr → Option Res) (m : Option Cls)
       simp only [flatZ, nfZ, Prod.mk.injEq] at h
       obtain ⟨⟨hy1, hy2⟩, hL⟩ := h
       subst hy1
-      simp only [defLoop, defLoopNF, hy2, ih (i + 1) L hL]
-      cases defParam eval m i k a (Option.map visitDefault df) <;> cases defLoopNF eval m (i + 1) N <;> rfl
+      simp only [defLoop, accLoop, hy2]
+      cases defParam eval m i k a (Option.map visitDefault df) with
+      | none => rfl
+      | some p =>
+        simp only
+        split <;> exact ih _ _ L hL
 
-/-- `inspLoop` without a `__dunder` positional-or-keyword parameter is a plain map -/
-def inspLoopNF (m : Option Cls) : Nat → List IParam → Option (List SigParam)
-  | _, [] => some []
-  | i, p :: ps =>
-    match inspParam m i p, inspLoopNF m (i + 1) ps with
-    | some sp, some sps => some (sp :: sps)
-    | _, _ => none
-
-theorem inspLoop_nf (m : Option Cls) (ps : List IParam)
-    (h : ∀ p ∈ ps, (p.kind == Kind.posOrKw && isDunderName p.name) = false) :
-    ∀ (i : Nat) (acc : List SigParam), inspLoop m i acc ps = (inspLoopNF m i ps).map (acc ++ ·) := by
-  induction ps with
-  | nil => intro i acc; simp [inspLoop, inspLoopNF]
-  | cons p ps ih =>
+theorem inspLoop_nf (m : Option Cls) (fut : Bool) (N : List (Kind × PArg × Option Dflt)) :
+    ∀ (i : Nat) (acc : List SigParam),
+      inspLoop m i acc (N.map (toIParam fut)) = accLoop (fun i x => inspParam m i (toIParam fut x)) i acc N := by
+  induction N with
+  | nil => intro i acc; simp [inspLoop, accLoop]
+  | cons x N ih =>
     intro i acc
-    have hp := h p (by simp)
-    simp only [inspLoop, inspLoopNF, hp]
-    cases hq : inspParam m i p with
-    | none => simp
-    | some sp =>
-      simp only [Bool.false_eq_true, if_false]
-      rw [ih (fun q hq => h q (by simp [hq])) (i + 1) (acc ++ [sp])]
-      cases inspLoopNF m (i + 1) ps <;> simp
+    simp only [List.map_cons, inspLoop, accLoop]
+    cases inspParam m i (toIParam fut x) with
+    | none => rfl
+    | some p =>
+      have hc : ((toIParam fut x).kind == Kind.posOrKw && isDunderName (toIParam fut x).name) =
+          (x.1 == Kind.posOrKw && isDunderName x.2.1.name) := rfl
+      simp only [hc]
+      by_cases h : (x.1 == Kind.posOrKw && isDunderName x.2.1.name) = true
+      · simp only [h, if_true]; exact ih _ _
+      · simp only [h]; exact ih _ _
 
 /-- the in-source reading of an annotation and the runtime reading of the object `inspect` reports
 for it coincide -/
@@ -650,23 +646,41 @@ theorem param_core (fut : Bool) (i : Nat) (x : Kind × PArg × Option Dflt) (h :
     subst hdf
     cases k <;> cases i <;> simp_all [defParam, inspParam, toIParam, translateVararg, SigParam.core]
 
-theorem loops_core (fut : Bool) (N : List (Kind × PArg × Option Dflt)) (h : ∀ x ∈ N, ParamOK fut x) :
-    ∀ i, (defLoopNF visEval none i N).map (·.map SigParam.core) =
-      (inspLoopNF none i (N.map (toIParam fut))).map (·.map SigParam.core) := by
+theorem core_setKind (p : SigParam) (k : Kind) :
+    SigParam.core { p with kind := k } = ((SigParam.core p).1, k, (SigParam.core p).2.2) := by
+  simp [SigParam.core]
+
+theorem map_core_setKind {acc acc' : List SigParam} (h : acc.map SigParam.core = acc'.map SigParam.core)
+    (k : Kind) :
+    (acc.map fun q => { q with kind := k }).map SigParam.core =
+      (acc'.map fun q => { q with kind := k }).map SigParam.core := by
+  have := congrArg (List.map fun c : String × Kind × Option (Option Obj) × Ty × Nat => (c.1, k, c.2.2)) h
+  simpa [SigParam.core, Function.comp_def] using this
+
+/-- two instances of the loop whose per-parameter results have the same compared components produce
+lists with the same compared components -/
+theorem accLoop_core (f g : Nat → Kind × PArg × Option Dflt → Option SigParam)
+    (N : List (Kind × PArg × Option Dflt))
+    (h : ∀ x ∈ N, ∀ i, (f i x).map SigParam.core = (g i x).map SigParam.core) :
+    ∀ (i : Nat) (acc acc' : List SigParam), acc.map SigParam.core = acc'.map SigParam.core →
+      (accLoop f i acc N).map (·.map SigParam.core) = (accLoop g i acc' N).map (·.map SigParam.core) := by
   induction N with
-  | nil => intro i; simp [defLoopNF, inspLoopNF]
+  | nil => intro i acc acc' ha; simp [accLoop, ha]
   | cons x N ih =>
-    intro i
-    obtain ⟨k, a, df⟩ := x
-    have hp := param_core fut i (k, a, df) (h _ (by simp))
-    have hr := ih (fun y hy => h y (by simp [hy])) (i + 1)
-    simp only [defLoopNF, inspLoopNF, List.map_cons]
-    simp only at hp
-    cases h1 : defParam visEval none i k a (Option.map visitDefault df) <;>
-      cases h2 : inspParam none i (toIParam fut (k, a, df)) <;>
-      cases h3 : defLoopNF visEval none (i + 1) N <;>
-      cases h4 : inspLoopNF none (i + 1) (List.map (toIParam fut) N) <;>
-      simp_all
+    intro i acc acc' ha
+    have hx := h x (by simp) i
+    have ihN := ih fun y hy => h y (by simp [hy])
+    simp only [accLoop]
+    cases hf : f i x <;> cases hg : g i x <;> simp only [hf, hg, Option.map_none, Option.map_some] at hx ⊢
+    · simp at hx
+    · simp at hx
+    · rename_i p q
+      have hpq : SigParam.core p = SigParam.core q := by simpa using hx
+      split
+      · apply ihN
+        simp only [List.map_append, List.map_cons, List.map_nil, map_core_setKind ha, core_setKind, hpq]
+      · apply ihN
+        simp only [List.map_append, List.map_cons, List.map_nil, ha, hpq]
 
 theorem posNF_args (n N : Nat) (ds : List Dflt) (as : List PArg) (j : Nat) :
     (posNF n N ds j as).map (·.2.1) = as := by
@@ -680,7 +694,7 @@ theorem nf_args (d : DefArgs) : (nf d).map (·.2.1) = d.allArgs := by
 /-- the exact agreement of the two signature routes on the compared components, given that every
 annotation of the header is read alike by the two routes -/
 theorem params_agree_core (d : DefArgs) (hwf : d.WF = true) (hm : d.methodOf = none)
-    (hD : D13_dunderPosOnly d = false) (hR : R13_unannotated d = false)
+    (hR : R13_unannotated d = false)
     (hann : ∀ a ∈ d.allArgs, ∀ e, a.ann = some e → AnnOK d.future e)
     (hret : ∀ e, d.returns = some e → AnnOK d.future e) :
     (fromDef d).map SigOut.core = (fromRuntime d).map SigOut.core := by
@@ -696,18 +710,15 @@ theorem params_agree_core (d : DefArgs) (hwf : d.WF = true) (hm : d.methodOf = n
       Bool.or_eq_true, not_or] at this
     obtain ⟨⟨h1, h2⟩, h3⟩ := this
     refine ⟨by cases hx2 : x.2.2 <;> simp_all, by intro hk; simp [hk] at h2, by intro hk; simp [hk] at h3⟩
-  have hdun : ∀ p ∈ (nf d).map (toIParam d.future),
-      (p.kind == Kind.posOrKw && isDunderName p.name) = false := by
-    simp only [D13_dunderPosOnly, hnf, List.any_eq_false] at hD
-    intro p hp
-    simpa using hD p hp
-  have hloop := loops_core d.future (nf d) hok 0
+  have hloop := accLoop_core
+    (fun i x => defParam visEval none i x.1 x.2.1 (x.2.2.map visitDefault))
+    (fun i x => inspParam none i (toIParam d.future x)) (nf d)
+    (fun x hx i => param_core d.future i x (hok x hx)) 0 [] [] rfl
   unfold fromDef fromRuntime fromDefWith fromInspect
-  rw [defLoop_nf visEval d.methodOf (nf d) 0 _ (zip_nf d hwf), hnf,
-    inspLoop_nf _ _ hdun 0 []]
+  rw [defLoop_nf visEval d.methodOf (nf d) 0 [] _ (zip_nf d hwf), hnf, inspLoop_nf]
   simp only [inspectOf, hm] at hloop ⊢
-  cases h1 : defLoopNF visEval none 0 (nf d) <;>
-    cases h2 : inspLoopNF none 0 (List.map (toIParam d.future) (nf d)) <;>
+  cases h1 : accLoop (fun i x => defParam visEval none i x.1 x.2.1 (x.2.2.map visitDefault)) 0 [] (nf d) <;>
+    cases h2 : accLoop (fun i x => inspParam none i (toIParam d.future x)) 0 [] (nf d) <;>
     simp only [h1, h2, Option.map_none, Option.map_some] at hloop ⊢
   · simp at hloop
   · simp at hloop
@@ -750,11 +761,11 @@ theorem swapOpt_id (e : AnnExpr) : e.hasOpt = false → swapOpt e = e := by
 /-- under `from __future__ import annotations` the function object carries the *text* of the
 annotation, so the inspect route reads it by the AST route -/
 theorem annOK_future (e : AnnExpr) (hs : supp true e = true) (hst : e.starU = false)
-    (hf : e.finalU = false) (hr : R13_typingDedup e = false) (ho : e.hasOpt = false) : AnnOK true e := by
+    (hr : R13_typingDedup e = false) (ho : e.hasOpt = false) : AnnOK true e := by
   intro au
   simp only [annObject, if_true, rtEval]
   have hsw := swapOpt_id e ho
-  have := agree_main e hs hst hf (by rw [hsw]; exact hr) au
+  have := agree_main e hs hst (by rw [hsw]; exact hr) au
   rw [hsw] at this
   cases e <;> first
     | (simp only [visEval]; rw [squash_id _ hst]; exact this.symm)
